@@ -2370,7 +2370,13 @@ class FGD:
             for ent in todo:
                 ready = True
                 for base in ent.bases:
-                    if isinstance(base, EntityDef) and base not in done:
+                    if isinstance(base, str):
+                        # Not resolved yet, order against the entity of that name if we have it.
+                        try:
+                            base = self.entities[base.casefold()]
+                        except KeyError:
+                            continue
+                    if base not in done:
                         # Base not done yet, we need to defer this.
                         deferred.add(ent)
                         # If the base isn't in any of our sets, it's one
